@@ -259,10 +259,13 @@ class ListWithAdjustments(object):
     #   theoretical ground.
     assert count > 0
     begin = self._adj_get_key(index - 1) if index > 0 else 0.0
-    end = self._adj_get_key(index) if index < len(self._orig_list) else begin + count + 1
-    if begin < 0 or end <= 0 or math.isinf(max(begin, end)):
+    at_end = index >= len(self._orig_list)
+    end = begin + count + 1 if at_end else self._adj_get_key(index)
+    if (begin < 0 or end <= 0 or math.isinf(max(begin, end)) or
+        (at_end and end - begin < count + 1)):
       # This should only happen if we have some invalid positions (e.g. from before we started
-      # using this logic). In this case, just renumber everything 1 through n (leaving space so
+      # using this logic), or a last position so large (2**53 or more) that adding count + 1 to it
+      # is lost to rounding. In this case, just renumber everything 1 through n (leaving space so
       # that the count insertions take the first count integers).
       self._insertions.update([begin if index > 0 else float('-inf')] * count)
       self._adjust_all()
